@@ -17,7 +17,7 @@ NS = (f'xmlns:w="{W}" xmlns:r="http://schemas.openxmlformats.org/officeDocument/
       'xmlns:v="urn:schemas-microsoft-com:vml" '
       'xmlns:m="http://schemas.openxmlformats.org/officeDocument/2006/math"')
 
-SUPPORTS = {"itbx", "r.acc", "r.num", "p", "h", "ul", "ul.nested", "tbl", "tbl.nested", "cell.multi", "sdt", "tbx", "r", "tab", "br",
+SUPPORTS = {"itbx", "r.acc", "r.num", "p", "h", "ul", "ul.nested", "tbl", "tbl.nested", "cell.multi", "sdt", "tbx", "r", "tab", "br", "sp",
             "a", "ins", "del", "isdt", "fn", "cm", "header", "footer"}
 
 
@@ -52,6 +52,8 @@ def _inlines(inls, c: _Ctx, deleted=False) -> str:
                 out.append(_run(w_, deleted))
         elif t == "tab":
             out.append("<w:r><w:tab/></w:r>")
+        elif t == "sp":          # a run that holds nothing but a blank
+            out.append(_run(" ", deleted))
         elif t == "br":
             out.append("<w:r><w:br/></w:r>")
         elif t == "a":
